@@ -35,11 +35,17 @@ use engine::{
 };
 
 use super::{
-    encoded_len,
     BundleFactory,
     BundleFactoryError,
     SizedBundle,
 };
+
+/// The reference size: prost's own length of the raw message, independent of the crate's
+/// `encoded_len` (which is part of what is checked).
+fn encoded_len(action: &RollupDataSubmission) -> usize {
+    use astria_core::Protobuf as _;
+    prost::Message::encoded_len(&action.to_raw())
+}
 
 #[derive(Clone, Copy, Debug, PartialEq, Eq, Hash)]
 enum Op {
@@ -430,7 +436,7 @@ fn verif_c16() {
     let (depth, n_sizes) = if thorough { (11, 7) } else { (8, 6) };
     rep.rule(&format!(
         "BFS over the real BundleFactory: every sequence of <= {depth} operations from \
-         {{push(size class) x {n_sizes}, pop_now, next_finished().pop()}} for max in 2 sizes x finished \
+         {{push(size class) x {n_sizes}, pop_now, next_finished().pop()}} for max in 3 sizes (one with payloads of 128..255 bytes, two-byte length prefixes) x finished \
          queue capacity in {{0,1,2,3}}; state key = size structure of (finished bundles, current bundle); \
          oracle: list reference model (accepted ids in order), recomputed encoded sizes, refusal only if \
          too large or queue full, refused push leaves contents unchanged"
@@ -438,7 +444,7 @@ fn verif_c16() {
     let mut total_states = 0usize;
     let mut total_transitions = 0usize;
     let mut outcomes = 0usize;
-    for max_mult in [2usize, 3] {
+    for max_mult in [2usize, 3, 5] {
         for capacity in [0usize, 1, 2, 3] {
             let m = model(max_mult, capacity, n_sizes);
             let out = explore::explore(
